@@ -31,6 +31,7 @@ import (
 	"github.com/boz/kcache"
 	"github.com/boz/kcache/filter"
 	"github.com/boz/kcache/nsname"
+	corev1 "k8s.io/api/core/v1"
 	metav1 "k8s.io/apimachinery/pkg/apis/meta/v1"
 )
 
@@ -90,6 +91,7 @@ type node struct {
 	mon  kcache.Monitor
 	leaf kcache.Subscription
 
+	rebased  bool // the node was marker-blind at some point: its mirror baseline is taken again afterwards
 	lossy    bool // the consumer was stalled beyond its buffer: its own stream has gaps by design, no mirror oracle
 	filt     int  // reference predicate: index into the family; -1 none; -2 deferred and not supplied; -3 the raw filter.All() (rejects markers too)
 	closed   bool
@@ -208,6 +210,9 @@ type worldCfg struct {
 	checkReady  bool          // C08: list every node's cache at the instant its Ready() is observed
 	stepChecked bool          // the test calls checkQuiet after every single operation, starting right after creation
 	plans       []sessPlan    // fault plans of the first watch sessions
+	typed       string        // C20: build the root through this typed package (adapters_gen_test.go)
+	objType     string        // C20: server objects are of this typed package's type (also for untyped roots)
+	typedLists  bool          // C20: lists are the typed list type instead of a metav1.List of raw objects
 }
 
 type world struct {
@@ -301,7 +306,19 @@ func newWorld(t failer, cfg worldCfg) *world {
 		w.api.gated = true
 	}
 	w.api.plans = append(w.api.plans, cfg.plans...)
-	root, err := b.Create()
+	if cfg.objType != "" {
+		w.api.newObj = typedPkgs[cfg.objType].newObj
+		if cfg.typedLists {
+			w.api.mkList = typedPkgs[cfg.objType].mkList
+		}
+	}
+	var root kcache.Controller
+	var err error
+	if cfg.typed != "" {
+		root, err = typedPkgs[cfg.typed].build(w.ctx, w.plog, w.api)
+	} else {
+		root, err = b.Create()
+	}
 	if err != nil {
 		t.Fatalf("harness: cannot create controller: %v", err)
 	}
@@ -409,6 +426,14 @@ func (n *node) pump() {
 		default:
 		}
 		obj := ev.Resource()
+		if obj == nil {
+			n.mu.Lock()
+			if n.early == "" {
+				n.early = fmt.Sprintf("an event of type %s without an object was delivered", ev.Type())
+			}
+			n.mu.Unlock()
+			continue
+		}
 		if d := atomic.LoadInt64(&n.delayNs); d > 0 {
 			time.Sleep(time.Duration(d))
 		}
@@ -623,6 +648,20 @@ func (w *world) del(ns, name string) bool {
 	return true
 }
 
+// putForeign publishes an object of a type none of the typed packages handles.
+// A typed world must skip it (it never enters the view); an untyped world sees it.
+func (w *world) putForeign(ns, name string, labels map[string]string) {
+	ex := w.api.has(ns, name)
+	obj := &corev1.ConfigMap{ObjectMeta: metav1.ObjectMeta{Namespace: ns, Name: name, Labels: labels}}
+	rv := w.api.putObj(obj)
+	if w.cfg.typed == "" {
+		w.view[ns+"/"+name] = obj
+	} else {
+		delete(w.view, ns+"/"+name)
+	}
+	w.h("put foreign-typed object (ConfigMap) %s/%s%s -> rv %d (replaces existing: %v)", ns, name, labelsStr(labels), rv, ex)
+}
+
 // dropNext makes the watch lose the next n non-marker events.
 func (w *world) dropNext(n int) {
 	w.api.mu.Lock()
@@ -642,6 +681,14 @@ func (w *world) relist() {
 	if req == nil {
 		w.fail("WEDGE: the controller issued no further List call (refresh period %v)", w.cfg.period)
 	}
+	w.completeRelist(req)
+}
+
+// completeRelist releases a pending gated List (snapshot taken now) and waits until the
+// controller has applied it.  Releasing without waiting would let the (by then stale)
+// list be applied at an arbitrary later moment, transiently undoing newer watch events
+// until the re-established watch replays them.
+func (w *world) completeRelist(req *listReq) {
 	w.api.mu.Lock()
 	nw := len(w.api.watchCalls)
 	w.api.mu.Unlock()
@@ -1018,6 +1065,16 @@ func isClosedCh(ch <-chan struct{}) bool {
 // over the controller's view, strict mirror == cache, no early event.
 func (w *world) checkQuiet() {
 	w.barrier()
+	if w.cfg.stepChecked {
+		// The barrier only covers nodes that are ready.  A node that is not ready yet may still hold
+		// unprocessed parent events in its inbox (it will drop them); if the next step made it ready
+		// first, those stale events would legitimately be applied after its sync.  The per-step
+		// oracles (no event at the first baseline, listing at Ready) need true quiescence: wait until
+		// every other goroutine of the process is parked.
+		if !waitQuiescent(wedgeBoundNow()) {
+			statSlow("harness-quiescence")
+		}
+	}
 	for _, n := range w.nodes {
 		if n.kind == "mon" {
 			if n.closed {
@@ -1059,6 +1116,28 @@ func (w *world) checkQuiet() {
 			w.fail("node %s: Cache().List() failed on a live node: %v", n.path(), err)
 		}
 		gk, want := keyVersions(got), w.expected(n)
+		if w.markerBlind(n) {
+			// a node below the library's own filter.All() sees no marker: no barrier covers it.
+			// Its reference content is empty for good; give the pending refilter time to land.
+			deadline := time.Now().Add(wedgeBoundNow())
+			for !sameStrings(gk, want) && time.Now().Before(deadline) {
+				time.Sleep(100 * time.Microsecond)
+				if got, err = n.leaf.Cache().List(); err != nil {
+					w.fail("node %s: Cache().List() failed on a live node: %v", n.path(), err)
+				}
+				gk = keyVersions(got)
+			}
+			if !sameStrings(gk, want) {
+				setWedgeSeen()
+				w.fail("node %s was refiltered to the accept-nothing filter filter.All() but its cache still holds %v", n.path(), gk)
+			}
+			n.baseline = false // its stream is not synchronised with the barriers: re-baseline once it sees markers again
+			n.rebased = true
+			n.mu.Lock()
+			n.mirrorOn = false
+			n.mu.Unlock()
+			continue
+		}
 		if !sameStrings(gk, want) {
 			w.fail("node %s: cache %v, reference (filters on the path applied to the controller's view) %v", n.path(), gk, want)
 		}
@@ -1101,7 +1180,7 @@ func (w *world) checkQuiet() {
 			// first quiescent point at which the node is ready.  Nothing was in
 			// flight when it became ready and nothing has been published since,
 			// so any event in its log was sent no later than Ready() closed.
-			if c := n.eventCount(); c > 0 && w.cfg.stepChecked {
+			if c := n.eventCount(); c > 0 && w.cfg.stepChecked && !n.rebased {
 				w.fail("node %s delivered %d events (first: %s) no later than the moment its Ready() closed", n.path(), c, n.eventsFrom(0)[0])
 			}
 			// take the consumer's baseline
@@ -1122,7 +1201,10 @@ func (w *world) checkQuiet() {
 }
 
 // finish closes the root and checks the cascade and the absence of leaks.
-func (w *world) finish() {
+func (w *world) finish() { w.finishOpt(true) }
+
+// finishOpt: leakCheck=false when another world is still alive in this process.
+func (w *world) finishOpt(leakCheck bool) {
 	if w.finished {
 		return
 	}
@@ -1141,6 +1223,9 @@ func (w *world) finish() {
 		}
 		w.waitFor(n.eof, fmt.Sprintf("Events() of %s being closed after root close", n.path()))
 		w.waitFor(n.doneCh(), fmt.Sprintf("Done() of %s after root close", n.path()))
+	}
+	if !leakCheck {
+		return
 	}
 	// the context is still live: the library must wind down on Close() alone
 	bound := wedgeBound
